@@ -55,6 +55,16 @@ func R1RejectEffects(c *Ctx) {
 				}) {
 					infeasible = true
 				}
+				// the write may sit in a helper of this package whose error result is that write's error
+				if bo, ok := f.Cond.(*ssa.BinOp); ok && (isNilConst(bo.X) || isNilConst(bo.Y)) {
+					v := bo.X
+					if isNilConst(bo.X) {
+						v = bo.Y
+					}
+					if errOnlyFromBufferWrite(v, 0) {
+						infeasible = true
+					}
+				}
 			}
 			if infeasible {
 				c.R.Ok(rule, FuncShort(fn), "return Response, false [after Buffer.Write error]", c.pos(ret.Pos()), "infeasible: bytes.Buffer.Write never returns an error", false)
@@ -133,4 +143,47 @@ func R1RejectEffects(c *Ctx) {
 			c.R.Bad(rule, FuncShort(fn), "Success == false → decoy", c.pos(par.Pos()), "a rejected request is not answered with the decoy 404 (or a protocol reply is written on the failing edge)")
 		}
 	}
+}
+
+// errOnlyFromBufferWrite: v is the error result of a same-package helper all of whose returns hand back nil or the
+// error of a (*bytes.Buffer).Write (which is always nil).
+func errOnlyFromBufferWrite(v ssa.Value, depth int) bool {
+	if depth > 2 {
+		return false
+	}
+	var call *ssa.Call
+	idx := 0
+	switch x := v.(type) {
+	case *ssa.Extract:
+		call, _ = x.Tuple.(*ssa.Call)
+		idx = x.Index
+	case *ssa.Call:
+		call = x
+	}
+	if call == nil {
+		return false
+	}
+	if CalleeName(call) == "(*bytes.Buffer).Write" {
+		return idx == 1
+	}
+	h := call.Call.StaticCallee()
+	if h == nil || h.Blocks == nil || FuncPkgPathOf(h) != PkgHandlers {
+		return false
+	}
+	n := 0
+	for _, b := range h.Blocks {
+		ret, ok := b.Instrs[len(b.Instrs)-1].(*ssa.Return)
+		if !ok || idx >= len(ret.Results) {
+			continue
+		}
+		n++
+		r := ret.Results[idx]
+		if isNilConst(r) {
+			continue
+		}
+		if !errOnlyFromBufferWrite(r, depth+1) {
+			return false
+		}
+	}
+	return n > 0
 }
